@@ -153,9 +153,11 @@ func applyAlt(c *Case) (*Case, int, bool) {
 
 // userPanic: the value is one that a generated function body panics with.
 func userPanic(v interface{}) bool {
-	switch v.(type) {
-	case *PanicVal, *PanicErr, *CBPanicVal, string:
+	switch x := v.(type) {
+	case *PanicVal, *PanicErr, *CBPanicVal:
 		return true
+	case string:
+		return strings.HasPrefix(x, "panic of f") // Fn.PK == 4
 	}
 	return false
 }
